@@ -296,7 +296,8 @@ def main():
     samples = []
     total_eval = 0
     distinct = set()
-    known = [k for k in load_known() if k.get("property") == prop and k.get("kind") == "finding"]
+    known = [k for k in load_known() if k.get("kind") == "finding"
+             and (k.get("property") == prop or prop in k.get("also_suppressed_in", []))]
 
     for st in cfg["streams"]:
         mod = importlib.import_module("streams." + st["module"])
